@@ -74,4 +74,10 @@ theorem src_mono (g : Gen) : SrcMono (src g) := by
           refine ⟨⟨?_, ?_⟩, ?_⟩ <;> omega
       simp [hl', hb']
 
+/-- in mode 0 the driver's source is the faithful one -/
+theorem srcMode_zero (g : Gen) : srcMode g 0 = src g := by
+  funext o n
+  unfold srcMode
+  cases src g o n <;> simp
+
 end C13
